@@ -188,6 +188,15 @@ Proof.
     intros T' HT'. rewrite Ht. apply Hin. right. exact HT'.
 Qed.
 
+(* with at least one traf (C05's encode_frag succeeds only then) the two agree *)
+Lemma encode_frag_nz_ok fr fe : encode_frag false fr = Ok fe -> encode_frag_nz fr = encode_frag false fr.
+Proof.
+  intros He. unfold encode_frag_nz. destruct (fr_trafs fr) as [|t ts] eqn:Et; [|reflexivity].
+  exfalso. unfold encode_frag in He. cbn [rbind] in He.
+  assert (H0 : fr_trafs (set_offsets fr) = []) by (unfold set_offsets; rewrite Et; reflexivity).
+  rewrite H0 in He. discriminate.
+Qed.
+
 (* ------------------------------------------------------------------ bookkeeping on combine *)
 Lemma combine_fst {A B} : forall (a : list A) (b : list B), length a = length b -> map fst (combine a b) = a.
 Proof. induction a as [|x a IH]; intros [|y b] H; try discriminate; [reflexivity|]. cbn [combine map fst]. rewrite IH; [reflexivity|]. cbn in H. lia. Qed.
@@ -251,9 +260,9 @@ Proof.
   destruct (write_mux_total ids g pos0 fr Hnd Hidne Hids Hsz) as [fe [He Hgd]]; try assumption.
   { unfold g. rewrite g_count_combine, g_bytes_combine by exact Hlg. exact Hsmall. }
   exists fe. split.
-  - assert (Hcm : combine_media ids (map fst ins) = do fr0 <- combine_loop ids (map fst ins) 0 (create_multi ids); encode_frag false fr0).
+  - assert (Hcm : combine_media ids (map fst ins) = do fr0 <- combine_loop ids (map fst ins) 0 (create_multi ids); encode_frag_nz fr0).
     { destruct ins; [congruence|reflexivity]. }
-    rewrite Hcm, Hloop, Hadd. cbn [rbind]. exact He.
+    rewrite Hcm, Hloop, Hadd. cbn [rbind]. rewrite (encode_frag_nz_ok fr fe He). exact He.
   - apply Forall2_combine_in; [exact Hlg|]. intros T l Hin dd ds df. unfold read_output.
     assert (Hw : write_mux_segment false ids g = Ok fe) by (unfold write_mux_segment; rewrite Hadd; cbn [rbind]; exact He).
     rewrite (write_read_mux false ids g fe pos0 (mkTrex T dd ds df) Hnd Hids); try assumption.
